@@ -243,14 +243,18 @@ def run_one(seed: int, index: int, tier: str) -> dict:
     distinct = set()
     res = {"index": index, "violations": [], "evals": 0, "harness_errors": []}
     rng = stream(run_seed, "schema")
-    root = K.gen_tree(rng)
+    wide = stream(run_seed, "swarm_wide")
+    nwide = wide.randint(30, 48) if wide.random() < 0.03 else 0
+    root = K.gen_tree(rng, wide=nwide)
     rf = stream(run_seed, "faults")
     logger_mode = stream(run_seed, "swarm").choice(["fresh", "shared", "default"])
     par = K.Parser()
     nodes = K.nodes_of(root)
     rs3 = stream(run_seed, "swarm3")
-    style = rs3.randrange(8)
+    style = rs3.randrange(8) + 8 * (stream(run_seed, "swarm_style").random() < 0.3)
     files = K.tree_files(root, style)
+    if nwide:
+        probes["wide_tree_over_30_modules"] += 1
     # line endings are a property of each FILE: some modules (or the root) come with CRLF or CR-only endings
     for rel in sorted(files):
         if rs3.random() < 0.12:
@@ -317,7 +321,11 @@ def run_one(seed: int, index: int, tier: str) -> dict:
             distinct.add(short([shape, "clean"]))
         # one fault per module and kind
         k = 0
-        for n, d in nodes[1:]:
+        fault_nodes = nodes[1:]
+        if nwide:
+            # a wide tree costs a second per parse: faults in a seeded sample of three modules only
+            fault_nodes = sorted(wide.sample(fault_nodes, 3), key=lambda nd: nd[0]["file"])
+        for n, d in fault_nodes:
             for kind in ("missing", "missing_dir", "syntax_token", "syntax_torn", "resolve"):
                 if kind == "missing_dir" and not os.path.dirname(n["file"]):
                     continue
